@@ -305,7 +305,7 @@ theorem sortedLe_sortStrings (l : List String) : sortedLe (sortStrings l) = true
   | nil => rfl
   | cons d ds ih => exact sortedLe_insertSorted d _ ih
 
-/-! ### `uniqueSorted` (fix a050cea): same elements, and strictly increasing on a sorted list -/
+/-! ### `uniqueSorted` (fix 6ba92e9): same elements, and strictly increasing on a sorted list -/
 
 theorem mem_uniqueAfter : ∀ (l : List String) (last t : String), t ∈ uniqueAfter last l → t ∈ l := by
   intro l
